@@ -29,7 +29,7 @@ RULE = ('plan = random user policies (preset and/or group sections, missing '
         'undefined ones, engine restarts; after every step every identity '
         'reads every object. Non-trivial: some object was both allowed to '
         'one identity and denied to another. Distinct = plan digest.')
-PROBES = ['policy_reload', 'denied_direct', 'denied_indirect_wrapping_key',
+PROBES = ['threaded_contention', 'policy_reload', 'denied_direct', 'denied_indirect_wrapping_key',
           'denied_indirect_derive_base', 'allowed_by_group_section',
           'allowed_owner_only', 'undefined_policy_object', 'restart',
           'locate_filtered_something', 'idless_in_batch']
@@ -98,8 +98,55 @@ def gen_policy(r):
     return p
 
 
+def generate_threaded(r):
+    """Concurrent sessions: the grant oracle applied to what each session
+    was answered while others ran (identity must never be borrowed from a
+    concurrently served session)."""
+    nact = r.choice([2, 3])
+    actors = [{'cn': 'user%d' % i} for i in range(nact)]
+    ctx = gen.Ctx(r, nactors=nact, policies=['default'])
+    scripts = []
+    for ai in range(nact):
+        ver = r.choice([(1, 2), (1, 4), (2, 0)])
+        sc = []
+        for j in range(r.randint(2, 4)):
+            if j == 0 or r.random() < 0.35:
+                y = r.random()
+                op = gen.gen_create(ctx, ver, ai, want_mask=12) \
+                    if y < 0.6 else (gen.gen_keypair(ctx, ver, ai)
+                                     if y < 0.8 else
+                                     gen.gen_register(ctx, ver, ai,
+                                                      'SecretData'))
+                for key in ('attrs', 'private', 'public'):
+                    if op.get(key):
+                        op[key] = [a for a in op[key]
+                                   if a['n'] != 'Operation Policy Name']
+                sc.append({'ver': list(ver), 'items': [op]})
+            else:
+                o = ctx.pick_obj(None, 0)
+                name = r.choice(['Get', 'GetAttributes', 'Activate',
+                                 'Destroy', 'GetAttributeList', 'Revoke'])
+                op = {'op': name, 'uid': ctx.ref(o)}
+                if name == 'Revoke':
+                    op['code'] = 2
+                sc.append({'ver': list(ver), 'items': [op]})
+        scripts.append(sc)
+    preempts = []
+    for _ in range(r.choice([1, 2, 3, 4])):
+        pt = int(2 ** (r.random() * 13.1)) if r.random() < 0.5 \
+            else r.randrange(1, 9000)
+        preempts.append(['s%d' % r.randrange(nact), pt,
+                         's%d' % r.randrange(nact)])
+    return {'kind': 'threaded', 'actors': actors, 'policies': {},
+            'seed': r.randrange(1 << 30), 'scripts': scripts,
+            'preempts': preempts,
+            'tiebreaks': [r.randrange(3) for _ in range(6)], 'steps': []}
+
+
 def generate(rng, tier, index):
     r = rng
+    if index % 8 == 7:
+        return generate_threaded(r)
     nact = r.choice([2, 3, 3])
     actors = [{'cn': 'user%d' % i} for i in range(nact)]
     if r.random() < 0.6:
@@ -213,7 +260,84 @@ def targets(op, resolve):
     return out
 
 
+def execute_threaded(plan):
+    from sim import threaded
+    probes = dict((p, 0) for p in PROBES)
+    viol = []
+    store = model.policy_store(plan['policies'])
+    W = threaded.ThreadedWorld(plan['actors'], plan['scripts'],
+                               preempts=plan['preempts'],
+                               tiebreaks=plan['tiebreaks'],
+                               user_policies=plan['policies'],
+                               seed=plan['seed'])
+    try:
+        hist = W.run()
+        S = W.sched
+        if S.aborted and S.aborted.startswith('step cap'):
+            raise RuntimeError('step cap reached')
+        view = model.store_view(W.db)
+        probes['threaded_contention'] = S.contention
+        switches = S.schedule_signature()
+        events = list(S.events)
+    finally:
+        W.close()
+    creators = {}
+    mixed = False
+    for h in hist:
+        resp = h.get('resp')
+        if resp is None or h.get('req') is None:
+            continue
+        cn = plan['actors'][h['actor']]['cn']
+        for op, it in zip(h['req']['items'], resp.items):
+            if it['status'] != 0:
+                continue
+            p = it['payload']
+            if op['op'] in ('Create', 'Register', 'CreateKeyPair'):
+                for u in (p.get('uids') or []) + [p.get('private_uid'),
+                                                  p.get('public_uid')]:
+                    if u:
+                        creators[u] = cn
+                continue
+            if op['op'] not in OBJ_OPS:
+                continue
+            uid = (p.get('uids') or [None])[0]
+            o = view.get(uid)
+            if o is None:
+                continue
+            keys = [model.OP_KEY[op['op']]]
+            if not any(model.grants(store, o['policy'], cn, None,
+                                    o['owner'], o['otype'], k)
+                       for k in keys):
+                viol.append({
+                    'sig': {'oracle': 'effect-without-grant',
+                            'op': op['op'], 'role': 'concurrent'},
+                    'detail': {'actor': cn, 'uid': uid, 'owner': o['owner'],
+                               'policy': o['policy'], 'otype': o['otype']}})
+            if o['owner'] != cn:
+                mixed = True
+    for uid, o in view.items():
+        if uid in creators and o['owner'] != creators[uid]:
+            viol.append({'sig': {'oracle': 'owner-is-not-creator',
+                                 'op': None, 'role': 'concurrent'},
+                         'detail': {'uid': uid, 'owner': o['owner'],
+                                    'creator': creators[uid]}})
+    digest = kernel.digest_of([events, [h.get('sent') for h in hist]])
+    return {
+        'violations': viol, 'nontrivial': S.contention > 0,
+        'key': kernel.digest_of(switches) + digest, 'digest': digest,
+        'faults': {'preempt': S.fired_preempts,
+                   'lock_contention': S.contention},
+        'probes': probes, 'schedule': kernel.digest_of(switches),
+        'sim_s': 0.0, 'steps': S.steps,
+        'sample': {'kind': 'threaded', 'clients': [
+            [[o['op'] for o in rq['items']] for rq in sc]
+            for sc in plan['scripts']], 'switches': switches[:6]},
+    }
+
+
 def execute(plan):
+    if plan.get('kind') == 'threaded':
+        return execute_threaded(plan)
     probes = dict((p, 0) for p in PROBES)
     viol = []
     states = []
@@ -436,7 +560,12 @@ def execute(plan):
         W.close()
 
 
+SHRINK_LISTS = ['steps', 'preempts']
+
+
 def simplify(plan):
+    if plan.get('kind') == 'threaded':
+        return
     for i, st in enumerate(plan['steps']):
         if 'items' in st and len(st['items']) > 1:
             for j in range(len(st['items'])):
